@@ -1176,6 +1176,17 @@ def suite_handoff(ctx, can_run_model):
                 if not feat.get("corrupt"):
                     fail("C13:feasible_schedule_explored", "the schedule the timed simulator performs (%d of %d process-visible "
                          "states) is not among the explored ones" % (len(miss), len(after)))
+        elif res and res[0] == "RESULT PANIC":
+            # a checker that panics in the middle of the exploration has explored only what it evaluated before
+            # (#CHECK lines): the simulator's continuation must still be among it
+            pvs = set(KV_PV.search(l).group(1) for l in il if l.startswith("#CHECK") and KV_PV.search(l))
+            after = [l for l in cont if l.startswith("PV ")]
+            miss = [l for l in after if l.split()[1] not in pvs]
+            ctx.count("inclusion_checked_after_panic")
+            if miss and not feat.get("corrupt"):
+                fail("C04:sim_path_explored", "the exploration panicked; %d of %d process-visible states of the continued "
+                     "simulation had not been visited before" % (len(miss), len(after)))
+        if res and res[0] == "RESULT OK":
             nchecks = sum(1 for l in il if l.startswith("CHECK"))
             if nchecks >= 6 and len(after) >= 3 and (feat["timers"] or feat["drop"] or feat["dupl"] or feat["corrupt"] or feat["rand_delay"]):
                 ctx.nontrivial.add(sc_hash(sc))
@@ -1543,7 +1554,8 @@ def suite_pytwin(ctx, can_run_model):
     late = [("PYTWIN", sc[1] + "-late", list(sc[2]) + ["LATEMC"]) for sc in scs[:len(raw)] if "CONTINUE" in sc[2]]
     impl = vlib.run_impl(scs + late, "py-impl", shards=8)
     ctx.clauses.update(["C18:twin_identical", "C18:exception_surfaces", "C18:source_untouched", "C18:state_roundtrip",
-                        "C18:checker_independent_of_source"])
+                        "C18:checker_independent_of_source", "C09:python_source_untouched",
+                        "C09:python_checker_independent_of_source"])
     for idx, sc in enumerate(scs):
         sid = sc[1]
         ctx.evaluations += 1
@@ -1551,6 +1563,12 @@ def suite_pytwin(ctx, can_run_model):
         def fail(clause, detail):
             ctx.monitor_failures.append({"clause": clause, "detail": detail, "scenario": vlib.scenario_text(sc),
                                          "impl": il[:40], "seed": ctx.seed, "suite": "PYTWIN"})
+            # the same observation decides C09 for Python programs (checker and source System are independent)
+            alias = {"C18:source_untouched": "C09:python_source_untouched",
+                     "C18:checker_independent_of_source": "C09:python_checker_independent_of_source"}.get(clause)
+            if alias:
+                ctx.monitor_failures.append({"clause": alias, "detail": detail, "scenario": vlib.scenario_text(sc),
+                                             "impl": il[:40], "seed": ctx.seed, "suite": "PYTWIN"})
         if "TWIN rust" not in il or "TWIN python" not in il:
             fail("C18:twin_identical", "harness produced no twin output: %s" % il[:3])
             continue
@@ -1928,9 +1946,13 @@ PROPERTIES = {
                     "instance fires at most once) is replayed over the trace.",
             "assumptions": SIM_ASSUMPTIONS + ["known finding F10 (model checking: the overridden timer still fires) is listed"]},
     "C09": {
-        "suites": [suite_mc, suite_mc_staged],
+        "suites": [suite_mc, suite_mc_staged, suite_handoff, suite_pytwin],
         "rule": MC_RULE + "Each run is executed twice on the same ModelChecker. distinct_nontrivial = distinct scenarios "
-                "with >= 8 evaluated states and timers, faults or a crash (staged: >= 2 start states).",
+                "with >= 8 evaluated states and timers, faults or a crash (staged: >= 2 start states). HANDOFF scenarios "
+                "(simulate, snapshot, explore, continue): the continuation must equal the continuation of a twin System on "
+                "which no checker was ever created (C09:source_untouched). PYTWIN scenarios: the same for Python processes, "
+                "and the checker's output must not depend on whether the source System was stepped further before the "
+                "checker ran (C09:python_*).",
         "assumptions": STD_ASSUMPTIONS + [
             "process save/restore is exact (the property's own side condition; true of the harness's ScriptProc)",
             "aliasing between the checker's copies and the source System is invisible to a value-passing model: "
